@@ -260,17 +260,26 @@ func runConfine(c *core.Ctx, sc *scratch, w *confWorld, i, k int, st *struct{ in
 		return
 	}
 	e := &sp155{PlatMfrID: 11129, PlatMfrStr: googleMfr, PlatModel: "Google Compute Engine", FwMfrStr: googleMfr, FwMfrID: 11129, FwVersion: "2.7", LocType: locVariable, Loc: loc}
-	logPath := filepath.Join(sc.dir, fmt.Sprintf("d%d.log", i))
-	must(os.WriteFile(logPath, encodeLog([]logEvent{{Type: evNoAction, Data: e.encode()}}), 0o644))
-	defer os.Remove(logPath)
+	logName := fmt.Sprintf("d%d.log", i)
+	pl, _ := placeLog(sc.dir, logName, encodeLog([]logEvent{{Type: evNoAction, Data: e.encode()}}), drawMedium(r))
+	defer os.Remove(filepath.Join(sc.dir, logName))
+	defer os.Remove(filepath.Join(sc.dir, logName+".target"))
+	gen += "/log-on=" + pl.medium.String()
 	var out2 []byte
 	var err2 error
-	m = c.Guard(i, entryDirect, gen, core.Budget{}, func() {
-		out2, err2 = extract.Endorsement(&extract.Options{FirmwareManufacturer: googleMfr, EventLogLocation: logPath, UEFIVariableReader: rd})
+	pl.serve(func() {
+		m = c.Guard(i, entryDirect, gen, core.Budget{}, func() {
+			out2, err2 = extract.Endorsement(&extract.Options{FirmwareManufacturer: googleMfr, EventLogLocation: pl.path, UEFIVariableReader: rd})
+		})
 	})
 	if m.Panicked {
 		return
 	}
+	if pl.tainted {
+		c.Count("log-medium/pipe-not-served-whole(case-skipped)", 1)
+		return
+	}
+	c.Count("log-medium/"+pl.medium.String(), 1)
 	if err2 == nil {
 		st.viaLog++
 	}
